@@ -211,6 +211,8 @@ def shrink_candidates(rec):
             if c:
                 r = copy.deepcopy(rec); r['ops'] = c; yield r
     for i, op in enumerate(rec['ops']):
+        if op.get('op') != 'solve':
+            continue
         if op['k'] > 2:
             r = copy.deepcopy(rec); r['ops'][i]['k'] = max(1, op['k'] // 2); yield r
         if op['it'] != 'euler':
